@@ -22,7 +22,7 @@ theorem flat_profile_is_the_source (hapX : Bool) (par : Option String) (t : List
         (classOf ((t.head?.map (·.chrom)).getD "") par b.chrom b.s b.e == .x)
         (classOf ((t.head?.map (·.chrom)).getD "") par b.chrom b.s b.e == .y)
         (b.chrom == yLabel ((t.head?.map (·.chrom)).getD ""))) :=
-  Src.expectFlat_is_source hapX par t
+  Src.expectFlat_is_source_ref hapX par t
 
 /-- consequently every value a sample contributes to the pooled matrix is the source's sex shift applied to the
     median-centred log2 and the source's flat level of that bin -/
